@@ -129,7 +129,10 @@ def inject(target, what, k, counter):
         pathlib.Path.open, pathlib.Path.lstat = orig_open, orig_lstat
 
 
-def content(i, big=False):
+def content(i, big=False, crc0=False):
+    if crc0 and not big:
+        # members whose CRC-32 is 0 (empty, or forged): a digest section holding only zeros must still be written
+        return b"" if i % 2 else G.force_crc(G.expand(["gen", "text", 36 + i, i]), 0)
     return G.expand(["gen", ["text", "random"][i % 2], 6000 if big else 40 + i * 13, i])
 
 
@@ -140,7 +143,8 @@ class C15(Check):
     rule = ("history = 1..5 calls over write / writestr / writef / writeall with exactly one fault injected into call i: source path missing; "
             "lstat or open of the source raising EACCES/EIO (pathlib.Path.open/lstat wrapped for that path only); read raising after k bytes "
             "(k in 0,1,4095,4096,4097; writef source or wrapped file); rejected arcname ('../x', absolute) or argument type; followed by 0..2 "
-            "successful calls; closed by context manager or explicit close; Copy or LZMA2 filter. All histories of <= 3 calls are enumerated "
+            "successful calls; closed by context manager, explicit close, or by the exception leaving the with-block (failing call last); other "
+            "members ordinary or all with CRC-32 0 (empty / forged); Copy or LZMA2 filter. All histories of <= 3 calls are enumerated "
             "(call kind x fault x position x k x ending). Oracle: the injected exception (or ValueError for rejected arguments) reaches the "
             "caller; for open/stat/argument failures the closed archive contains exactly the successful calls' members, in order, intact, "
             "and the failed source is not opened or read again; for mid-read failures the closed file fails to open/extract or delivers "
@@ -163,13 +167,25 @@ class C15(Check):
                 for pos in range(n):
                     for fault in FAULTS[kinds[pos]]:
                         for k in (KS if fault == "read-fails" else [0]):
-                            for end in ("with", "close"):
+                            for end in ("with", "close", "with-escape"):
+                                if end == "with-escape" and pos != n - 1:
+                                    continue  # the exception leaves the with-block: nothing can follow the failing call
                                 i += 1
                                 if not env.mine(i):
                                     continue
                                 if env.quick and n == 3 and (i // env.nshards) % 3:
                                     continue
                                 yield {"calls": list(kinds), "fault_at": pos, "fault": fault, "k": k, "end": end, "filter": "copy" if i % 2 else "lzma2"}
+        # sources failing midway while every other member has CRC-32 0 (empty or forged contents)
+        for n in (2, 3):
+            for kinds in itertools.product(["writestr", "writef", "write"], repeat=n):
+                for pos in range(n):
+                    if kinds[pos] == "writestr":
+                        continue
+                    for k in (1, 37, 4096):
+                        i += 1
+                        if env.mine(i):
+                            yield {"calls": list(kinds), "fault_at": pos, "fault": "read-fails", "k": k, "end": "close", "filter": "copy" if i % 2 else "lzma2", "crc0": True}
 
     def strategy(self, env):
         def build(kinds, pos, fidx, k, end, flt):
@@ -178,7 +194,7 @@ class C15(Check):
             return {"calls": kinds, "fault_at": pos, "fault": faults[fidx % len(faults)], "k": k, "end": end, "filter": flt}
 
         return st.builds(build, st.lists(st.sampled_from(CALLS), min_size=1, max_size=5), st.integers(0, 4), st.integers(0, 10),
-                         st.one_of(st.sampled_from(KS), st.integers(0, 7000)), st.sampled_from(["with", "close"]), st.sampled_from(["copy", "lzma2", "default"]))
+                         st.one_of(st.sampled_from(KS), st.integers(0, 7000)), st.sampled_from(["with", "close", "with-escape"]), st.sampled_from(["copy", "lzma2", "default"]))
 
     def examples(self, env):
         return env.n(60, 1500)
@@ -200,6 +216,7 @@ class C15(Check):
         model = []
         midread = fault == "read-fails"
         seen_exc = None
+        escaped = None
         bio = io.BytesIO()
         target_path = None
         try:
@@ -207,7 +224,7 @@ class C15(Check):
             plans = []
             for i, c in enumerate(calls):
                 big = midread and i == pos
-                data = content(i, big)
+                data = content(i, big, case.get("crc0", False))
                 name = "m%d.bin" % i
                 if c == "write":
                     p = os.path.join(src, "f%d.bin" % i)
@@ -290,11 +307,16 @@ class C15(Check):
                                 break
                             seen_exc = e
                             snapshot = dict(counter)
+                            if case["end"] == "with-escape":
+                                escaped = e
+                                break  # the exception leaves the with-block
                         finally:
                             counter["armed"] = False
                     # close
                     try:
-                        if case["end"] == "with":
+                        if case["end"] == "with-escape" and escaped is not None:
+                            z.__exit__(type(escaped), escaped, escaped.__traceback__)
+                        elif case["end"] in ("with", "with-escape"):
                             z.__exit__(None, None, None)
                         else:
                             z.close()
